@@ -268,6 +268,44 @@ func (u *Unit) retry(ctx context.Context, ob *Oblig, solvers []SolverSpec, ro Ru
 	}
 }
 
+// LastChance re-runs one undischarged obligation standalone on the three solvers with a long budget. The
+// driver calls it sequentially, after everything else has finished, for the few obligations that are
+// still open: on a loaded machine (several checks running at once) queries that normally take a few
+// seconds can exceed the per-query budget of the parallel phase, and that must not turn into an alarm.
+func (u *Unit) LastChance(ctx context.Context, ob *Oblig, timeoutMs, seed int) bool {
+	if ob.Cover || ob.ok() {
+		return ob.ok()
+	}
+	script := u.ScriptFor(ob, false)
+	type res struct {
+		solver, ans string
+		secs        float64
+	}
+	ss := Solvers(timeoutMs, seed)
+	ch := make(chan res, len(ss))
+	cctx, cancel := context.WithCancel(ctx)
+	defer cancel()
+	for _, s := range ss {
+		s := s
+		go func() {
+			ans, _, el, _ := RunScript(cctx, s, script, time.Duration(timeoutMs+5000)*time.Millisecond)
+			a := "unknown"
+			if len(ans) > 0 {
+				a = ans[0]
+			}
+			ch <- res{s.Name, a, el.Seconds()}
+		}()
+	}
+	for range ss {
+		r := <-ch
+		if r.ans == "unsat" {
+			ob.Status, ob.Solver, ob.Seconds = "unsat", r.solver+" (last chance, sequential)", r.secs
+			return true
+		}
+	}
+	return false
+}
+
 func sanitizeFile(s string) string {
 	r := strings.NewReplacer("/", "_", " ", "_", "*", "_", "(", "_", ")", "_", "$", "_", ":", "_", "\"", "_", "'", "_", "|", "_", "<", "_", ">", "_", "&", "_", ";", "_")
 	out := r.Replace(s)
